@@ -17,13 +17,18 @@ package pbutil
 
 //@ func FJSONPBWithOpt
 //@   ghostset @call:iface:io.Writer.Write written
-//@   assert @call:(google.golang.org/protobuf/encoding/protojson.MarshalOptions).Marshal [options] arg0.Multiline == !o.Compact && arg0.Indent == ite(o.Compact, "", " ") && arg0.EmitUnpopulated == false
+//@   assert @call:google.golang.org/protobuf/encoding/protojson.(MarshalOptions).Marshal [options] arg0.Multiline == !o.Compact && arg0.Indent == ite(o.Compact, "", " ") && arg0.EmitUnpopulated == false
 //@   ensures [nil-refused] m == nil ==> result != nil && !ghost("written")
 //@   errprop MarshalOptions).Marshal Writer.Write
+// between the encoder and the writer the bytes pass through exactly the one documented clean-up (whitespace after a
+// key at the start of a line), and nothing else rewrites them
+//@   assert @call:regexp.(*Regexp).% [only-the-key-whitespace-cleanup] arg0 == extraSpaceAfterKeyRE
+//@   ghostset @call:regexp.(*Regexp).ReplaceAll cleaned
+//@   assert @call:iface:io.Writer.Write [cleaned-once-before-write] ghost("cleaned")
 
 //@ func FTextPBWithOpt
 //@   ghostset @call:iface:io.Writer.Write written
-//@   assert @call:(google.golang.org/protobuf/encoding/prototext.MarshalOptions).Marshal [options] arg0.Multiline == !o.Compact && arg0.Indent == ite(o.Compact, "", " ")
+//@   assert @call:google.golang.org/protobuf/encoding/prototext.(MarshalOptions).Marshal [options] arg0.Multiline == !o.Compact && arg0.Indent == ite(o.Compact, "", " ")
 //@   ensures [nil-refused] m == nil ==> result != nil && !ghost("written")
 //@   errprop MarshalOptions).Marshal Writer.Write
 
